@@ -168,7 +168,7 @@ func driveC04(p *Pool, r *evid.Run) {
 			if quick {
 				step = 2
 			}
-			for _, kind := range []string{"cancelS", "cancelR", "cancelB", "break"} {
+			for _, kind := range []string{"cancelS", "cancelR", "cancelB", "break", "killR", "killS"} {
 				for k := 0; k < info["steps"]; k += step {
 					add(Fault{Kind: kind, K: k})
 				}
@@ -222,7 +222,7 @@ func driveC04(p *Pool, r *evid.Run) {
 			if rr[0].Info == nil {
 				continue
 			}
-			for _, kind := range []string{"cancelS", "cancelB", "cancelR", "break"} {
+			for _, kind := range []string{"cancelS", "cancelB", "cancelR", "break", "killR", "killS"} {
 				for k := 0; k < rr[0].Info["steps"]; k++ {
 					sc := root
 					sc.Fault = Fault{Kind: kind, K: k}
@@ -269,7 +269,7 @@ func driveC04(p *Pool, r *evid.Run) {
 		if stride < 1 {
 			stride = 1
 		}
-		for _, kind := range []string{"break", "cancelS", "cancelR"} {
+		for _, kind := range []string{"break", "cancelS", "cancelR", "killR"} {
 			for k := 0; k < steps; k += stride {
 				sc := root
 				sc.Fault = Fault{Kind: kind, K: k}
@@ -306,7 +306,7 @@ func driveC04(p *Pool, r *evid.Run) {
 			if !quick {
 				n = 12
 			}
-			for _, kind := range []string{"cancelR", "cancelS", "break"} {
+			for _, kind := range []string{"cancelR", "cancelS", "break", "killR"} {
 				for k := 0; k < steps; k += steps/n + 1 {
 					sc := root
 					sc.Fault = Fault{Kind: kind, K: k}
